@@ -206,6 +206,8 @@ def run(ctx):
     r5(ctx)
     ctx.rule("R6", "template scanner keeps literal text: the position literal fragments are cut from advances only when a variable was consumed (a `$` that is no variable stays in the text)")
     r6(ctx)
+    ctx.rule("R7", "a spelling is accepted as a variable only after every character of its name passed the shared character class (or the name is empty / the text is exactly the sigils)")
+    r7(ctx)
 
 
 CHAR_SEQ = re.compile(r"^&?(mut )?(alloc::vec::Vec<char>|\[char\]|core::str::iter::Chars<'_>|core::slice::iter::Iter<'_, char>)$")
@@ -383,3 +385,47 @@ def r6(ctx):
                "every assignment lies on the path where split_first_meta_var returned Some" if not bad else
                "the position literal text is cut from is advanced where split_first_meta_var returned None (%s): the text up to and including a `$` that is no variable "
                "(`$ `, `$lower`, `${`) is dropped from fixes and messages" % bad[:2], where=f0.loc())
+
+
+def r7(ctx):
+    """extract_meta_var decides which pattern tokens are holes.  'lower-case names, digit-first names and lone sigils are never treated
+    as holes' has a structural part: no `Some(variable)` is returned on a path on which the name was not run through
+    `chars().all(is_valid_meta_var_char)` — the only exemptions being a name known to be empty and the exact comparison of the whole
+    token with the sigil string.  What the character class accepts stays value level (R4 ties both recognisers to the same one)."""
+    from ..query import bool_arms
+    prog = ctx.prog
+    f0 = ctx.anchor("R7", r"^ast_grep_core::meta_var::extract_meta_var$")
+    if not f0:
+        return
+    f = prog.inlined(f0)
+    somes = [bi for bi in sorted(f.live_blocks) for st in f.blocks[bi]["s"]
+             if st[0] == "A" and st[1][0] == 0 and not st[1][1] and st[2][0] == "agg" and st[2][1].get("variant") == "Some"]
+    ctx.floor("R7", "accepting returns of extract_meta_var", len(somes), 3)
+    ok_arms = []
+    for c in f.calls:
+        if c.bb not in f.live_blocks:
+            continue
+        good = None
+        if c.name == "all" and "is_valid_meta_var_char" in repr(c.args):
+            good = "true"
+        elif c.name == "all" and any("is_valid_meta_var_char" in repr([cc.best for cc in g.calls]) for g in prog.closures_of(f) if (closure_consumer_of(prog, g) is c)):
+            good = "true"
+        elif c.name == "is_empty" and "str" in c.best:
+            good = "true"
+        elif c.name in ("eq", "ne") and c.args and any(o.kind == "param" and o.ref == 1 for a in c.args[:2] for o in deep_roots(prog, f, a, TRANSPARENT)):
+            good = "true" if c.name == "eq" else "false"
+        if good:
+            ba = bool_arms(f, c)
+            if ba:
+                ok_arms.append(ba[good])
+    bad = [b for b in somes if not any(f.dominates(a, b) or a == b for a in ok_arms)]
+    ctx.ob("R7", "extract_meta_var/every accepted spelling had its name validated", bool(ok_arms) and not bad,
+           "%d accepting return(s), each dominated by a successful all(is_valid_meta_var_char) (or an empty name / the bare sigil string)" % len(somes) if ok_arms and not bad else
+           "a variable is returned on a path that did not validate the name's characters (%s): tokens like `$$$_rest` or `$$$_x` become holes although lower-case names must stay literal text"
+           % [f.loc(f.blocks[b]["s"][0][3]) if f.blocks[b]["s"] else b for b in bad][:3], where=f0.loc())
+
+
+def closure_consumer_of(prog, g):
+    from ..query import closure_consumer
+    cons = closure_consumer(prog, g)
+    return cons[1] if cons else None
